@@ -301,7 +301,9 @@ def make_case(rng, method, nk, lk, pattern=None, masked=None):
             "spelling": rng.choice([method, method.upper(), "scipy/" + method, "SciPy/" + method.title()]
                                    + (["default", "scipy/default"] if method == "slsqp" else [])),
             "mask": mask, "x0": x0c, "start": start, "lower": lower, "upper": upper, "nl": nl, "lin": lin, "options": options,
-            "max_iter": rng.randint(1, 50) if rng.random() < 0.6 else None,
+            # inside the known finding's region (options not a dict) a limit is configured less often: each such
+            # case costs a twin (see gen_cases)
+            "max_iter": rng.randint(1, 50) if rng.random() < (0.6 if options is not None and "dict" in options else 0.3) else None,
             "output_dir": "/tmp/verif_c08_out" if rng.random() < 0.2 else None,
             "types": [rng.choice([1, 2]) for _ in range(n_full)] if mask is None and rng.random() < 0.25 else None,
             "parallel": rng.random() < 0.3,
@@ -340,7 +342,7 @@ def _gen_cases(tier, rng):
             for masked in (False, True):
                 if not masked and pattern in ("fixed-variable-only", "free-variables-only"):
                     continue
-                for _ in range(1 if tier == "quick" else 6):
+                for _ in range(1 if tier == "quick" else 4):
                     nk, lk = ((), ())
                     if method in CONSTRAINED and rng.random() < 0.5:
                         nk, lk = rng.choice([(("lo",), ()), ((), ("up",)), (("two",), ("lo",))])
@@ -358,9 +360,9 @@ def _gen_cases(tier, rng):
                     if (nk or lk) and rep >= (1 if tier == "quick" else 4):
                         continue      # these are rejected; the variation is in bounds / options / masks
                     yield make_case(rng, method, nk, lk)
-        for _ in range(40 if tier == "quick" else 600):
+        for _ in range(40 if tier == "quick" else 400):
             yield make_case(rng, method, (), ())
-    for _ in range(150 if tier == "quick" else 3000):      # more option / bounds / mask variation
+    for _ in range(150 if tier == "quick" else 2000):      # more option / bounds / mask variation
         yield make_case(rng, rng.choice(CONSTRAINED), (), ())
 
 
